@@ -157,8 +157,10 @@ class FitsTiler(object):
 
                 if os.path.exists(os.path.join(self.out_dir, "properties")):
                     self._copy_hips_properties_to_builder()
+                else:
+                    self._restore_builder_from_index_wtml()
 
-                return
+                return self
 
         if self.tiling_method == TilingMethod.HIPS:
             self._tile_hips(cli_progress, parallel)
@@ -396,6 +398,27 @@ class FitsTiler(object):
             os.symlink(src=absolute_path, dst=link_path)
 
         return dir
+
+    def _restore_builder_from_index_wtml(self):
+        """
+        When reusing an existing output directory, describe the dataset the way
+        the ``index_rel.wtml`` written by the earlier run does.
+        """
+        from wwt_data_formats.folder import Folder
+        from wwt_data_formats.place import Place
+
+        index_path = os.path.join(self.out_dir, "index_rel.wtml")
+        if not os.path.exists(index_path):
+            return
+
+        item = Folder.from_file(index_path).children[0]
+
+        if isinstance(item, Place):
+            self.builder.place = item
+            self.builder.imgset = item.foreground_image_set
+        else:
+            self.builder.imgset = item
+            self.builder.place.foreground_image_set = item
 
     def _copy_hips_properties_to_builder(self):
         hips_properties = dict()
